@@ -506,6 +506,31 @@ def r4b_always_authenticate_everywhere(ctx, prog):
                         file=f['file'], line=f['line'])
 
 
+def r4c_flag_cleared_on_success_only(ctx, prog):
+    """The pending re-authentication of a CKA_ALWAYS_AUTHENTICATE operation is cleared by C_Login(CKU_CONTEXT_SPECIFIC) only when Token::reAuthenticate answered CKR_OK - any
+    other answer (wrong PIN, nobody logged in any more, a general error) leaves the operation locked."""
+    r = ctx.rule('C07.R4c', 'C_Login clears the pending re-authentication only after reAuthenticate() returned CKR_OK', floor=1, engine='E2 dominance')
+    f = prog.fn('SoftHSM::C_Login')
+    ctx.analysed(f)
+
+    def trig(e, st):
+        if e.get('k') == 'Call' and short(e.get('callee')) == 'setReAuthentication' and e.get('args') and canon(e['args'][0], st.env) in ('false', '0'):
+            return ('clear', e['l'])
+        return None
+    sf = SiteFacts(f, prog, trigger=trig, track_facts=r'reAuthenticate|^EQ\(rv,').go()
+    r.paths += sf.paths_returned
+    if not sf.sites:
+        r.undecided(f['qname'], 'clearing of the flag', 'no setReAuthentication(false) found', file=f['file'], line=f['line'])
+    for (_, line), hits in sorted(sf.sites.items()):
+        site = 'setReAuthentication(false)@%d' % line
+        bad = [h for h in hits if not (any(t and re.fullmatch(r'EQ\(reAuthenticate(@\d+)?\(.*\),CKR_OK\)', a) for a, t in h['facts']) or h['env'].get('rv') == 'CKR_OK' or ('EQ(rv,CKR_OK)', True) in h['facts'])]
+        if bad:
+            r.violation(f['qname'], site, 'the pending re-authentication is cleared on a path where reAuthenticate() is not known to have returned CKR_OK: a context-specific login that fails (e.g. with CKR_OPERATION_NOT_INITIALIZED after a logout) releases the always-authenticate key',
+                        file=f['file'], line=line, path=bad[0]['path'])
+        else:
+            r.ok(f['qname'], site, 'only under reAuthenticate() == CKR_OK', file=f['file'], line=line)
+
+
 def run(ctx):
     prog = ctx.prog('ossl-file')
     mx = matrix(ctx, prog)
@@ -517,6 +542,7 @@ def run(ctx):
     r6_reauthenticate(ctx, prog)
     r7_second_keys(ctx, prog)
     r4b_always_authenticate_everywhere(ctx, prog)
+    r4c_flag_cleared_on_success_only(ctx, prog)
 
 
 MUTANTS = [
